@@ -8,7 +8,7 @@ class C03(ContCheck):
     id = 'C03'
     nontrivial_rule = ('a history is non-trivial when at least one set succeeded (map non-empty at some point); keys from a '
                        '4-letter alphabet so overwrites and repeated removals are common; removals prefer the smallest / '
-                       'largest key present; distinct = distinct case lines (three classes per history)')
+                       'largest key present; distinct = distinct case lines (three classes per history); further strata: pair form of set, own-object arguments (set/has_value with the map\'s own value object, set with its own pair, set/get/remove with its own key object), non-NULL list argument of get_keys/get_values/get_pairs, second use of a copy (`fork`, `swap`), maps of 31..257 (thorough ..1025) distinct keys in three build orders with every form of set/get/remove at the boundary positions and for absent keys below/between/above')
     assumptions = ['keys and values are non-empty spif_str objects, never NULL (the code asserts this)',
                    'map lengths below 2^31']
 
@@ -23,20 +23,31 @@ class C03(ContCheck):
               'caller\'s key and value objects after set and continued use after removals of the smallest/largest/only key; '
               'returned objects are also checked not to be the caller\'s own. Pointer-level models and refinement proofs are '
               'stage 2; memory safety is decided by the sanitizer run only.'
-              " Stage 2 (Properties/C03_array.v, C03_linked_list.v, C03_dlinked_list.v, C03_interchangeable.v): the pointer-level models of the three classes' map methods (probe + ordered insert of a copied pair, binary search / ordered scan, unlink on remove incl. head, inner, tail and only entry) are proved to refine the ideal dictionary for every history: never a Fault, outputs equal, keys strictly ascending, representation (incl. tail/prev links of the dlinked class) re-established after every removal; the three classes are interchangeable (corollary). 'The map holds its own copies' is decided by the correspondence check (caller objects mutated/deleted after set), the model stores key and value texts."),
+              " Stage 2 (Properties/C03_array.v, C03_linked_list.v, C03_dlinked_list.v, C03_interchangeable.v): the pointer-level models of the three classes' map methods (probe + ordered insert of a copied pair, binary search / ordered scan, unlink on remove incl. head, inner, tail and only entry) are proved to refine the ideal dictionary for every history: never a Fault, outputs equal, keys strictly ascending, representation (incl. tail/prev links of the dlinked class) re-established after every removal; the three classes are interchangeable (corollary). 'The map holds its own copies' is decided by the correspondence check (caller objects mutated/deleted after set), the model stores key and value texts."
+              " Strengthened after the round-2 seeds: own-object arguments (SPIF_MAP_SET(m, k, SPIF_MAP_GET(m, k)), set of the map's own pair from its iterator, set/get/remove with the map's own key object, has_value of its own value), the pair form set(objpair, NULL), the non-NULL list form of get_keys/get_values/get_pairs, `fork` (dup, then keep using the copy while the original is read back) and sized maps built with quiet steps. All are harness/driver-level compositions of the existing spec operations (the model side looks the key up with MGet and then issues the existing MSet/MGet/MRemove/MHasValue); op datatypes and theorems unchanged. Maps above 300 keys are compared with the ideal dictionary only."),
         design_ref='DESIGN.md section 7, C03')
 
     def gen(self, tier, rng):
         cases = []
-        nrand = 6000 if tier == 'quick' else 100000
+        quick = tier == 'quick'
+        nrand = 6000 if quick else 100000
         for _ in range(nrand):
             cases += all_classes('map', contlib.map_history(rng))
         for _ in range(nrand // 10):
             cases += all_classes('map', contlib.map_history(rng, keys=['a', 'b', 'c', 'd', 'e', 'f', 'g', 'h']))
-        depth = 4 if tier == 'quick' else 5
+        # keys that are prefixes of each other (a, aa, ab, b, ba, aaa)
+        for _ in range(nrand // 10):
+            cases += all_classes('map', contlib.map_history(rng, keys=contlib.KEYS_PREFIX))
+        depth = 4 if quick else 5
         ex = contlib.map_exhaustive(depth)
-        self.exhaustive_note = 'all %d sequences of %d operations from %s, on three classes' % (len(ex), depth, contlib.MAP_SYMBOLS)
-        for ops in ex:
+        ex2 = contlib.map_exhaustive(3 if quick else 4, contlib.MAP_SYMBOLS2)
+        sized = contlib.map_sized(contlib.SIZES_QUICK if quick else contlib.SIZES_THOROUGH, rng, all_positions=not quick)
+        self.exhaustive_note = ('all %d sequences of %d operations from %s and all %d sequences of %d operations of the composite '
+                                'alphabet %s (own-object arguments, pair form, fork = dup and use the copy, swap), on three classes; '
+                                '%d histories on maps of %s keys'
+                                % (len(ex), depth, contlib.MAP_SYMBOLS, len(ex2), 3 if quick else 4, contlib.MAP_SYMBOLS2, len(sized),
+                                   '31..257' if quick else '31..1025'))
+        for ops in ex + ex2 + sized:
             cases += all_classes('map', ops)
         return cases
 
